@@ -363,4 +363,20 @@ theorem unorderedMerge_frame (pandas : String → List Int → List Int → Exce
       simp only [List.mem_singleton] at this
       exact Or.inl (by simp [this])
 
+/-! ### name lists -/
+
+/-- the names `_unordered_merge` may create are pairwise distinct when the reserved and the data names are -/
+theorem nodup_unordered_names (L R : List String) (a b c d : String) :
+    ([a, b, c, d] ++ L ++ R).Nodup → (L ++ [c] ++ R ++ [d]).Nodup := by
+  intro h
+  simp only [List.nodup_append, List.nodup_cons, List.mem_append, List.mem_cons] at h ⊢
+  grind
+
+/-- … and so are those `_ordered_merge` may create -/
+theorem nodup_ordered_names (L R : List String) (a b c d : String) :
+    ([a, b, c, d] ++ L ++ R).Nodup → ([a, b] ++ L ++ R).Nodup := by
+  intro h
+  simp only [List.nodup_append, List.nodup_cons, List.mem_append, List.mem_cons] at h ⊢
+  grind
+
 end Exetera.Merge
